@@ -115,6 +115,11 @@ def layer_rhs1d(ctx, configs=None):
             if any(np.any(np.array(st[s_][k]) <= 0) for s_ in ('pL', 'pR') for k in pos):
                 r.count('skipped-inadmissible-face-state')
                 continue
+        # a characteristic inlet evaluated on an extrapolated face state can leave its regime (negative discriminant)
+        if any(b.get('type') == 'insub_cbc' for b in (cfg['bcL'], cfg['bcR'])) and \
+                any(not np.all(np.isfinite(np.asarray(st[s_][k]))) for s_ in ('pL', 'pR') for k in range(mod.neq)):
+            r.count('skipped-insub_cbc-out-of-regime')
+            continue
         # rhs() is the composition of the stage methods in that order (bitwise)
         ok, full = impl.guarded(lambda: [np.array(x, dtype=float).copy() for x in disc.rhs(f)])
         same = ok and all(np.array_equal(a, b_, equal_nan=True) for a, b_ in zip(full, st['res']))
